@@ -499,7 +499,7 @@ def parse_sanitizer(report, gen_source):
 class Driver(object):
     """One running driver process; restarted transparently after a crash."""
 
-    def __init__(self, exe, module, gen_source, errlog, timeout=20):
+    def __init__(self, exe, module, gen_source, errlog, timeout=int(os.environ.get("VERIF_CDRV_TIMEOUT", "120"))):
         self.exe, self.module, self.gen_source, self.errlog, self.timeout = exe, module, gen_source, errlog, timeout
         self.p = None
         self.curtype = None
